@@ -242,6 +242,7 @@ func run(c *props.Ctx) {
 	}
 	own2(c, own, meshFields)
 	matPointees(c, roots)
+	meshPointers(c, roots)
 	controlsVerdict(c, ctl)
 }
 
